@@ -71,7 +71,7 @@ struct Stats {
     uint64_t fault_kinds[4] = {0};         // cookie write failure, ostream overflow failure, istream read failure, corrupted source token
     uint64_t probe[16] = {0};
 };
-enum Probe { PC_OVERFLOW_IN_PADDING = 0, PC_OVERFLOW_BETWEEN_SURROGATES, PC_EOF_AT_TOKEN_END, PC_REFILL_INSIDE_CHAR, PC_FLUSH_INSIDE_CALL, PC_KNOWN_SPLIT_CHUNK, PC_TOKEN_REJECTED, PC_SKIPPED_U16_EOF, PC_EXTRACT_WITH_WIDTH, PC_FILE_STALE_ERROR, PC_FILE_EARLIER_CALL_THREW, PC_OSTREAM_PENDING_WIDTH, PC__COUNT };
+enum Probe { PC_OVERFLOW_IN_PADDING = 0, PC_OVERFLOW_BETWEEN_SURROGATES, PC_EOF_AT_TOKEN_END, PC_REFILL_INSIDE_CHAR, PC_FLUSH_INSIDE_CALL, PC_KNOWN_SPLIT_CHUNK, PC_TOKEN_REJECTED, PC_SKIPPED_U16_EOF, PC_EXTRACT_WITH_WIDTH, PC_FILE_STALE_ERROR, PC_FILE_EARLIER_CALL_THREW, PC_OSTREAM_PENDING_WIDTH, PC_EXTRACT_IMBUED_LOCALE, PC__COUNT };
 const char *probe_name(int i);
 
 struct RunResult { Viol viol; uint64_t sig = 0; bool nontrivial = false; uint64_t pairs = 0; };
